@@ -50,9 +50,11 @@ def run():
         say(v != "NoError", "Apalache: %s of %s is %s" % (inv, module, "refuted" if v == "Error" else v))
     for init, inv, what in (("InitBad", "InvNoneMissed", "one snapshot per iteration (D01) loses a requested time"),
                             ("InitBadMaxit", "InvMaxit", "an iteration limit compared with the cumulative count ends a restart early"),
+                            ("InitBadMon", "InvMonitor", "a monitor counting the steps of this call misses its multiples after a restart"),
+                            ("Init", "InvVacMon", "a monitor with three entries after a restart is reachable"),
                             ("Init", "InvVacThree", "three snapshots in one run are reachable"),
                             ("Init", "InvVacTwoInOne", "two snapshots in one iteration are reachable")):
-        v, _w = core.apalache("Apa_Driver", inv, timeout=300, init=init, length=5)
+        v, _w = core.apalache("Apa_Driver", inv, timeout=300, init=init, length=6)
         say(v != "NoError", "Apalache: Apa_Driver %s: %s" % (what, "refuted" if v == "Error" else v))
     # 3. binding: corrupted event traces recorded from the real code are rejected by Trace_Driver
     try:
